@@ -609,5 +609,171 @@ def run_chunk(rec, chunk_id, n_chunks):
                      'every composition of this chunk evaluated natively at an integer-valued vector given as list of ints / integer array / float array (fractional covariates); distinct by composition', exhaustive=True)
 
 
+def covariate_wrapped(rec):
+    """[bounded] every kind of population model that a CovariatePopulationModel can wrap (pooled, log-normal centred / non-centred, truncated
+    Gaussian), alone and between other sub-models, in a real HierarchicalLogLikelihood: the value equals sum_i L_i(psi_i) + log p(psi | vartheta_i)
+    with vartheta_i = theta + chi_i . beta computed by hand from the published vector order, and evaluateS1 returns that value and the central
+    finite differences of the hand-written reference."""
+    import chi as real
+    from scipy.stats import norm
+    funcs = ['chi._population_models.CovariatePopulationModel.compute_individual_parameters', 'chi._population_models.CovariatePopulationModel.compute_log_likelihood',
+             'chi._population_models.CovariatePopulationModel.compute_sensitivities', 'chi._covariate_models.LinearCovariateModel.compute_population_parameters',
+             'chi._log_pdfs.HierarchicalLogLikelihood.__call__', 'chi._log_pdfs.HierarchicalLogLikelihood.evaluateS1']
+
+    class Toy(real.MechanisticModel):
+        def __init__(self, n):
+            super(Toy, self).__init__()
+            self._has = False
+            self._n = n
+
+        def copy(self):
+            import copy
+            return copy.deepcopy(self)
+
+        def enable_sensitivities(self, enabled, parameter_names=None):
+            self._has = bool(enabled)
+
+        def has_sensitivities(self):
+            return self._has
+
+        def n_outputs(self):
+            return 1
+
+        def n_parameters(self):
+            return self._n
+
+        def outputs(self):
+            return ['y']
+
+        def parameters(self):
+            return ['q%d' % j for j in range(self._n)]
+
+        def set_outputs(self, outputs):
+            pass
+
+        def simulate(self, parameters, times):
+            t = np.asarray(times, dtype=float)
+            p = np.asarray(parameters, dtype=float)
+            w = np.array([(j + 1.0) for j in range(len(p))])
+            out = (np.sum(w * p) + 0.1 * t * (1 + np.sum(p * p)))[np.newaxis, :]
+            if not self._has:
+                return out
+            sens = np.empty((len(t), 1, len(p)))
+            for j in range(len(p)):
+                sens[:, 0, j] = w[j] + 0.2 * t * p[j]
+            return out, sens
+
+    def mk(real, part):
+        kind, d, nc = part
+        base = {'P': lambda: real.PooledModel(n_dim=d), 'G': lambda: real.GaussianModel(n_dim=d), 'L': lambda: real.LogNormalModel(n_dim=d),
+                'Ln': lambda: real.LogNormalModel(n_dim=d, centered=False), 'T': lambda: real.TruncatedGaussianModel(n_dim=d)}[kind.split(':')[-1]]()
+        return real.CovariatePopulationModel(base, real.LinearCovariateModel(n_cov=nc)) if kind.startswith('C:') else base
+
+    def reference(parts, n_ids, cov, lls, xv):
+        """(value, psi) by hand from the published order"""
+        hier = [p for p in parts if p[0].split(':')[-1] != 'P']
+        h = sum(d for _, d, _ in hier)
+        bottom = np.asarray(xv[:n_ids * h], dtype=float).reshape(n_ids, h)
+        top = list(xv[n_ids * h:])
+        D = sum(d for _, d, _ in parts)
+        psi = np.empty((n_ids, D))
+        dens = 0.0
+        col = bcol = coff = 0
+        for kind, d, nc in parts:
+            b = kind.split(':')[-1]
+            n_p = 1 if b == 'P' else 2
+            theta = np.array(top[:n_p * d], dtype=float).reshape(n_p, d)
+            top = top[n_p * d:]
+            var = np.repeat(theta[np.newaxis], n_ids, axis=0)
+            if kind.startswith('C:'):
+                beta = np.array(top[:n_p * d * nc], dtype=float).reshape(n_p * d, nc)
+                top = top[n_p * d * nc:]
+                for i in range(n_ids):
+                    for s_ in range(n_p * d):
+                        var[i, s_ // d, s_ % d] += float(np.dot(cov[i, coff:coff + nc], beta[s_]))
+                coff += nc
+            if b == 'P':
+                psi[:, col:col + d] = var[:, 0, :]
+            else:
+                x = bottom[:, bcol:bcol + d]
+                bcol += d
+                mu, sg = var[:, 0, :], var[:, 1, :]
+                if b == 'G':
+                    psi[:, col:col + d] = x
+                    dens += float(np.sum(norm.logpdf(x, mu, sg)))
+                elif b == 'L':
+                    psi[:, col:col + d] = x
+                    dens += float(np.sum(norm.logpdf(np.log(x), mu, sg) - np.log(x)))
+                elif b == 'Ln':
+                    psi[:, col:col + d] = np.exp(mu + sg * x)
+                    dens += float(np.sum(norm.logpdf(x, 0.0, 1.0)))
+                elif b == 'T':
+                    psi[:, col:col + d] = x
+                    dens += float(np.sum(norm.logpdf(x, mu, sg) - np.log(1 - norm.cdf(0.0, mu, sg))))
+            col += d
+        assert not top
+        return dens + sum(float(lls[i](psi[i])) for i in range(n_ids)), psi
+
+    cases = []
+    for b in ('P', 'L', 'Ln', 'T', 'G'):
+        for d, nc in ((1, 1), (1, 2), (2, 1)) + (((3, 1), (2, 2)) if rec.tier == 'thorough' else ()):
+            cases.append(((('C:' + b, d, nc),), 3))
+            cases.append(((('P', 1, 0), ('C:' + b, d, nc), ('G', 1, 0)), 3))
+        cases.append(((('C:' + b, 1, 1), ('C:P', 1, 2)), 2))
+
+    def one(case):
+        parts, n_ids = case
+        if sum(d for _, d, _ in parts) < 2:
+            parts = parts + (('P', 1, 0),)
+        rng = np.random.default_rng(rec.seed + len(repr(case)))
+        D = sum(d for _, d, _ in parts)
+        ncov = sum(nc for k, _, nc in parts if k.startswith('C:'))
+        subs = [mk(real, p_) for p_ in parts]
+        pop = subs[0] if len(subs) == 1 else real.ComposedPopulationModel(subs)
+        lls = []
+        for i in range(n_ids):
+            lls.append(real.LogLikelihood(Toy(D - 1), real.GaussianErrorModel(), rng.uniform(1, 3, 2), np.array([1.0, 2.0 + i])))
+            lls[-1].set_id('ind%d' % i)
+        cov = rng.uniform(-1, 1, (n_ids, ncov))
+        try:
+            hll = real.HierarchicalLogLikelihood(lls, pop, covariates=cov)
+        except Exception as ex:
+            return 'composition %s: construction raises %r' % (parts, ex)
+        n = hll.n_parameters()
+        names = hll.get_parameter_names()
+        xv = np.array([rng.uniform(0.7, 1.3) if not ('Std' in nm or 'Sigma' in nm) else rng.uniform(0.8, 1.4) for nm in names])
+        # covariate shifts stay small so that scales stay positive
+        for j, nm in enumerate(names):
+            if 'Cov.' in nm or 'Shift' in nm:
+                xv[j] = rng.uniform(-0.15, 0.15)
+        try:
+            want, psi = reference(parts, n_ids, cov, lls, xv)
+        except AssertionError:
+            return None
+        if not np.isfinite(want):
+            return None
+        try:
+            got = hll(xv)
+            s1, g1 = hll.evaluateS1(xv)
+        except Exception as ex:
+            return 'composition %s: evaluation at %s raises %r' % (parts, xv.tolist(), ex)
+        if not np.isclose(got, want, rtol=1e-9, atol=1e-9):
+            return 'composition %s, covariates %s: the hierarchical log-likelihood at %s is %r, the sum over the individuals at psi_i = %s plus the population density is %r' % (
+                parts, cov.tolist(), xv.tolist(), float(got), psi.tolist(), want)
+        if not np.isclose(s1, want, rtol=1e-9, atol=1e-9):
+            return 'composition %s: evaluateS1 returns the value %r, the reference is %r' % (parts, float(s1), want)
+        fd = np.empty(n)
+        for j in range(n):
+            e = np.zeros(n); e[j] = 1e-6
+            fd[j] = (reference(parts, n_ids, cov, lls, xv + e)[0] - reference(parts, n_ids, cov, lls, xv - e)[0]) / 2e-6
+        if not np.allclose(g1, fd, rtol=2e-4, atol=2e-5):
+            j = int(np.argmax(np.abs(np.asarray(g1) - fd)))
+            return 'composition %s: the gradient entry %d (%s) is %r, the central finite difference of the hand-written reference %r' % (parts, j, names[j], float(g1[j]), float(fd[j]))
+        return None
+    rec.native_check('covariate.wrapped-kinds', funcs, cases, one,
+                     'covariate models around pooled / Gaussian / log-normal (both parametrisations) / truncated Gaussian sub-models, alone and inside compositions; value, S1 value and gradient against a hand-written reference; distinct by composition',
+                     exhaustive=True)
+
+
 N_CHUNKS = 16
-TASKS = [('chunk%02d' % c, (lambda rec, c=c: run_chunk(rec, c, N_CHUNKS))) for c in range(N_CHUNKS)]
+TASKS = [('covariate-wrapped', covariate_wrapped)] + [('chunk%02d' % c, (lambda rec, c=c: run_chunk(rec, c, N_CHUNKS))) for c in range(N_CHUNKS)]
